@@ -3,11 +3,13 @@ package keyid
 //vsym:pkg github.com/theparanoids/ysshra/keyid
 //vsym:entry H05_marshal
 //vsym:entry H05_decode_any
+//vsym:entry H05_decode_twice
 //vsym:model encoding/json.Marshal m05Marshal
 //vsym:model encoding/json.Unmarshal m05Unmarshal
 //vsym:replay same-harness
 //vsym:expect-cover C05.marshal.ok C05.marshal.refused C05.decode.ok C05.decode.refused C05.decode.version-refused C05.decode.missing-key
 //vsym:bound H05_marshal: all four flags, touch policy (64-bit), usage (64-bit) and version (16-bit) symbolic; strings and the single principal symbolic, all of one common length 0..2 bytes; principals also nil (JSON null)
+//vsym:bound H05_decode_twice: two arbitrary decodes in sequence (the required-key tables and checkers are process state)
 //vsym:bound H05_decode_any: the decoder's result is an arbitrary KeyID (every scalar symbolic, 1-byte symbolic strings, 0..2 principals) with an arbitrary key-presence predicate over the struct's JSON names and the statement's eleven names, or a decoding error
 //vsym:assume encoding/json is modelled by its contract for a struct of exported, distinctly tagged, marshaler-free fields; the field -> JSON name / omitempty table is re-read from the struct tags of the loaded source on every run (vJSONFields)
 
@@ -224,11 +226,22 @@ func H05_marshal() {
 	vAssert(eq, "C05.roundtrip-equal")
 }
 
+// H05_decode_twice: two decodes in a row on the same process state — the
+// verdict on the second text must not depend on what the first one was.
+func H05_decode_twice() {
+	h05DecodeOnce("first-")
+	h05DecodeOnce("")
+}
+
 func H05_decode_any() {
+	h05DecodeOnce("")
+}
+
+func h05DecodeOnce(tag string) {
 	m05Arbitrary = true
-	m05ArbErr = vNondetBool("json-error")
+	m05ArbErr = vNondetBool(tag+"json-error")
 	h05Len = 1
-	np := vChoose(3, "nprins")
+	np := vChoose(3, tag+"nprins")
 	var prins []string
 	for i := 0; i < np; i++ {
 		prins = append(prins, h05Str("prin"))
@@ -239,13 +252,13 @@ func H05_decode_any() {
 		ReqUser:       h05Str("user"),
 		ReqIP:         h05Str("ip"),
 		ReqHost:       h05Str("host"),
-		IsFirefighter: vNondetBool("ff"),
-		IsHWKey:       vNondetBool("hw"),
-		IsHeadless:    vNondetBool("headless"),
-		IsNonce:       vNondetBool("nonce"),
-		Usage:         Usage(vNondetI64("usage")),
-		TouchPolicy:   TouchPolicy(vNondetI64("policy")),
-		Version:       vNondetU16("ver"),
+		IsFirefighter: vNondetBool(tag+"ff"),
+		IsHWKey:       vNondetBool(tag+"hw"),
+		IsHeadless:    vNondetBool(tag+"headless"),
+		IsNonce:       vNondetBool(tag+"nonce"),
+		Usage:         Usage(vNondetI64(tag+"usage")),
+		TouchPolicy:   TouchPolicy(vNondetI64(tag+"policy")),
+		Version:       vNondetU16(tag+"ver"),
 	}
 	// presence predicate over the statement's names and the struct's names
 	names := append([]string(nil), s05Required...)
@@ -263,7 +276,7 @@ func H05_decode_any() {
 	}
 	m05ArbPresent = map[string]bool{}
 	for _, n := range names {
-		m05ArbPresent[n] = vNondetBool("present-" + n)
+		m05ArbPresent[n] = vNondetBool(tag+"present-" + n)
 	}
 	text := "arbitrary"
 	if vIsNative() {
